@@ -213,12 +213,13 @@ func (v *authorizer) Authorize() error {
 		}
 	}
 
-	// remove the rules from the vrifier and authority blocks
-	// so they are not affected by facts created by later blocks
-	v.world.ResetRules()
-
 	for i, block := range v.biscuit.blocks {
+		// each block gets a copy of the authority-level facts without the rules of the
+		// authorizer and of the authority block, so that these rules are not affected by
+		// facts created by later blocks. The authorizer's own world keeps its rules: they
+		// still apply when facts are added and Authorize or Query is called again.
 		block_world := v.world.Clone()
+		block_world.ResetRules()
 
 		for _, fact := range *block.facts {
 			f, err := fromDatalogFact(v.biscuit.symbols, fact)
